@@ -119,6 +119,9 @@ func runCaseFull(c *Case) (tr Trace) {
 		_ = apis[scope].invoke(r.makeFunc(f, "inv").Interface())
 	}
 
+	var sharedP dig.ProvideInfo
+	var sharedD dig.DecorateInfo
+	var sharedI dig.InvokeInfo
 	for _, op := range c.Ops {
 		var ot OpTrace
 		r.events = nil
@@ -219,18 +222,30 @@ func runCaseFull(c *Case) (tr Trace) {
 			}
 			switch op.Op {
 			case "rawprovide":
-				var info dig.ProvideInfo
+				var fresh dig.ProvideInfo
+				info := &fresh
+				if c.ShareInfo {
+					info = &sharedP
+				}
 				po := rawProvideOptions(*op.Opts)
-				po = append(po, dig.FillProvideInfo(&info))
+				po = append(po, dig.FillProvideInfo(info))
 				ot.Verdict = guard(func() error { return apis[op.Scope].provide(v, po...) })
 				ot.Info = &Info{Inputs: strs(info.Inputs), Outputs: strs(info.Outputs)}
 			case "rawdecorate":
-				var info dig.DecorateInfo
-				ot.Verdict = guard(func() error { return apis[op.Scope].decorate(v, dig.FillDecorateInfo(&info)) })
+				var fresh dig.DecorateInfo
+				info := &fresh
+				if c.ShareInfo {
+					info = &sharedD
+				}
+				ot.Verdict = guard(func() error { return apis[op.Scope].decorate(v, dig.FillDecorateInfo(info)) })
 				ot.Info = &Info{Inputs: strs(info.Inputs), Outputs: strs(info.Outputs)}
 			case "rawinvoke":
-				var info dig.InvokeInfo
-				ot.Verdict = guard(func() error { return apis[op.Scope].invoke(v, dig.FillInvokeInfo(&info)) })
+				var fresh dig.InvokeInfo
+				info := &fresh
+				if c.ShareInfo {
+					info = &sharedI
+				}
+				ot.Verdict = guard(func() error { return apis[op.Scope].invoke(v, dig.FillInvokeInfo(info)) })
 				ot.Info = &Info{Inputs: strs(info.Inputs), Outputs: []string{}}
 			}
 		default:
